@@ -2,6 +2,7 @@ import MaltModel.Cfg.AstToCfg
 import MaltModel.Cfg.Check
 import MaltModel.Proofs.C05Check
 import MaltModel.Proofs.C05Paths
+import MaltModel.Proofs.C05Wf
 /-!
 # C05 — the control-flow graph contains every control path that can execute
 
@@ -39,9 +40,21 @@ theorem C05_paths_checker (i : Nat) (name : String) (args : Expr) (body : List S
     IsPath g (walkFn fuel (.functionDef i name args body decs rets isAsync) ω) :=
   pathCheck_sound i name args body decs rets isAsync g h fuel ω
 
+/-! ## Well-formedness of every graph the model builds
+
+For ALL root functions (any `Stmt` tree, including `try`/`finally`, async constructs, duplicate ids, …): whenever the
+builder does not raise, every graph it returns — the root's, and those of nested functions and lambdas — is well-formed:
+no duplicate nodes; edges, exits, errors and roots inside the node index; the entry is the first node, is a root and has no
+predecessor; and every node is reachable from a root, i.e. from the entry or from the start of a dead-code region (a node
+created while the leaf set was empty).  Proof: `Proofs/C05Wf.lean` (an invariant of the builder preserved by every step). -/
+
+theorem C05_wellformed (fn : Stmt) (herr : (build fn).err = none) (id : Nat) (g : Graph)
+    (hg : (id, g) ∈ (build fn).cfgs) : WellFormed g :=
+  build_wellFormed fn herr (id, g) hg
+
 /-! ## Statement-level edges agree with the node graph -/
 
-theorem mem_stmtNextOf (ow : List (NodeId × List Nat)) (edges : List (NodeId × NodeId)) (s : Nat) (n : NodeId) :
+private theorem mem_stmtNextOf (ow : List (NodeId × List Nat)) (edges : List (NodeId × NodeId)) (s : Nat) (n : NodeId) :
     n ∈ stmtNextOf ow edges s ↔ ∃ a, (a, n) ∈ edges ∧ s ∈ ownersOf ow a ∧ s ∉ ownersOf ow n := by
   simp only [stmtNextOf, List.mem_map, List.mem_filter, Bool.and_eq_true, List.contains_eq_mem, decide_eq_true_eq,
     Bool.not_eq_true', decide_eq_false_iff_not]
@@ -49,7 +62,7 @@ theorem mem_stmtNextOf (ow : List (NodeId × List Nat)) (edges : List (NodeId ×
   · rintro ⟨⟨a, c⟩, ⟨he, h1, h2⟩, rfl⟩; exact ⟨a, he, h1, h2⟩
   · rintro ⟨a, he, h1, h2⟩; exact ⟨(a, n), ⟨he, h1, h2⟩, rfl⟩
 
-theorem mem_stmtPrevOf (ow : List (NodeId × List Nat)) (edges : List (NodeId × NodeId)) (s : Nat) (n : NodeId) :
+private theorem mem_stmtPrevOf (ow : List (NodeId × List Nat)) (edges : List (NodeId × NodeId)) (s : Nat) (n : NodeId) :
     n ∈ stmtPrevOf ow edges s ↔ ∃ c, (n, c) ∈ edges ∧ s ∈ ownersOf ow c ∧ s ∉ ownersOf ow n := by
   simp only [stmtPrevOf, List.mem_map, List.mem_filter, Bool.and_eq_true, List.contains_eq_mem, decide_eq_true_eq,
     Bool.not_eq_true', decide_eq_false_iff_not]
@@ -120,6 +133,8 @@ def exFn : Stmt :=
     [] [] false
 
 example : fnFrag1 exFn = true ∧ fnDistinctKeys exFn = true ∧ (rootGraph exFn).isSome = true := by decide
+/-- … and `C05_wellformed` applies to both of its graphs (the function's and the lambda's). -/
+example : (build exFn).err = none ∧ (build exFn).cfgs.length = 2 := by decide
 example : walkFn 20 exFn [1, 0, 1, 1] = ([2, 5, 7, 9, 5, 7, 8, 17, 15], .normal, []) := by decide
 
 /-! ## The known violation of the full statement on the pinned code
